@@ -304,7 +304,7 @@ fn c07(cli: &Cli) {
     let wide = letters(&lists(&all, if thorough { 2 } else { 1 }), &if thorough { vec![(1, 1, 0), (0, 0, 2), (1, 2, 3)] } else { vec![(1, 1, 0), (0, 0, 2)] }, SRC_ONCE);
     plans.push((mk("wide: every template, both strategies", u.clone(), wide), 1));
     // histories over a core set
-    let core = t(&["xfer", "dep", "call_ok", "call_rvrt", "call_tro", "create", "call_c3", "msgdata_rvrt", "msg_relayed", "call_smo"]);
+    let core = t(&["xfer", "dep", "call_ok", "call_rvrt", "call_tro", "create", "call_c3", "msgdata_rvrt", "msg_relayed", "call_smo", "create_empty", "read_empty", "slot_empty_a", "slot_empty_b"]);
     let deep = letters(&lists(&core, 1), &[(1, 1, 1), (0, 0, 0)], SRC_ONCE);
     plans.push((mk("deep: histories over the core templates, both strategies", u.clone(), deep), if thorough { 3 } else { 2 }));
     // pre-checked transactions cross the WASM boundary in their serialized form
